@@ -9,7 +9,8 @@
    (0 = the current state file).  The model is tied to the implementation by correspondence on
    answer and request sequence (harness/cmd/c19), the URL data by translator/cmd/replication. *)
 From Coq Require Import ZArith List String Bool Lia.
-From Verif Require Import C19.Model C19.Proofs.
+From Verif Require Import C19.Model C19.Proofs C19.ProofsUrl C19.Urls C19.GenOk C19.Orig.
+From VerifGen Require Import GenReplication.
 Import ListNotations.
 Open Scope Z_scope.
 
@@ -74,6 +75,90 @@ Print Assumptions C19_monob_sound.
 Theorem C19_no_current : forall fuel st min t, search fuel st min None t = Some (ErrNotFound, [0]).
 Proof. reflexivity. Qed.
 
+(* 3. URL layout.  [state_url]/[data_url] are fmt.Sprintf (modelled) applied to the format
+      strings and argument expressions re-read from baseSeqURL / baseChangesetURL on every run.
+      For every kind and every n < 10^9 the request is
+        <base>/replication/<dir>/AAA/BBB/CCC<suffix>
+      with AAA = n/10^6, BBB = n/10^3 mod 10^3, CCC = n mod 10^3, three digits each. *)
+Theorem C19_state_url_layout : forall k base n, 0 <= n < 1000000000 ->
+  state_url k base n = Some (planet_path base (kind_dir k) n ++ ".state.txt")%string.
+Proof. exact state_url_planet. Qed.
+Print Assumptions C19_state_url_layout.
+
+Theorem C19_data_url_layout : forall k base n, 0 <= n < 1000000000 ->
+  data_url k base n =
+  Some (planet_path base (kind_dir k) n ++ (if Z.eqb k 3 then ".osm.gz" else ".osc.gz"))%string.
+Proof. exact data_url_planet. Qed.
+Print Assumptions C19_data_url_layout.
+
+Theorem C19_path_components : forall base dir n,
+  planet_path base dir n =
+  (base ++ "/replication/" ++ dir ++ "/" ++ d3 (n / 1000000) ++ "/" ++ d3 ((n / 1000) mod 1000)
+        ++ "/" ++ d3 (n mod 1000))%string
+  /\ (forall x, String.length (d3 x) = 3%nat).
+Proof. intros. split; [reflexivity|exact d3_length]. Qed.
+
+(* reading the path back gives n; distinct sequence numbers give distinct paths *)
+Theorem C19_path_parse_roundtrip : forall base dir suffix n, 0 <= n < 1000000000 ->
+  parse_path base dir suffix (planet_path base dir n ++ suffix) = Some n.
+Proof. exact parse_path_planet. Qed.
+Print Assumptions C19_path_parse_roundtrip.
+
+Theorem C19_path_injective : forall base dir n m,
+  0 <= n < 1000000000 -> 0 <= m < 1000000000 ->
+  planet_path base dir n = planet_path base dir m -> n = m.
+Proof. exact planet_path_inj. Qed.
+Print Assumptions C19_path_injective.
+
+Theorem C19_current_url : forall k base,
+  current_url k base =
+  Some (base ++ "/replication/" ++ kind_dir k ++ (if Z.eqb k 3 then "/state.yaml" else "/state.txt"))%string.
+Proof.
+  intros k base. unfold current_url.
+  destruct (Z.eqb k 3); [exact (proj2 (gen_current base (kind_dir k)))|exact (proj1 (gen_current base (kind_dir k)))].
+Qed.
+Print Assumptions C19_current_url.
+
+Theorem C19_dirs_and_first_numbers :
+  (kind_dir 0 = "minute" /\ kind_dir 1 = "hour" /\ kind_dir 2 = "day" /\ kind_dir 3 = "changesets")%string
+  /\ forall k, 1 <= kind_min k.
+Proof. split; [repeat split; reflexivity|exact gen_min_pos]. Qed.
+
+(* 4. the changeset state's off-by-one: the current state file (n = 0) carries the number
+      before the newest file; a numbered file is given the number of its name, whatever the
+      number inside.  Interval state files are taken at their word. *)
+Theorem C19_changeset_off_by_one : forall n inside,
+  fetched_seq 3 0 inside = inside + 1 /\ (n <> 0 -> fetched_seq 3 n inside = n) /\
+  forall k, k <> 3 -> fetched_seq k n inside = inside.
+Proof.
+  intros n inside. split; [exact (proj1 (gen_changeset_fix n inside))|].
+  split; [exact (proj2 (gen_changeset_fix n inside))|].
+  intros k Hk. unfold fetched_seq. destruct (Z.eqb_spec k 3); [contradiction|reflexivity].
+Qed.
+Print Assumptions C19_changeset_off_by_one.
+
+Theorem C19_time_formats :
+  In "2006-01-02T15\:04\:05Z"%string time_formats /\
+  In "2006-01-02 15:04:05.999999999 Z"%string time_formats /\
+  In "2006-01-02 15:04:05.999999999 +00:00"%string time_formats.
+Proof. exact gen_time_formats. Qed.
+
+(* 5. The code before the repair violated 1 and 2 (C19/Orig.v models it loop by loop):
+      with the files next to the split missing no amount of fuel suffices, and t at or before
+      the first state gives the second one.  Found against the real implementation, fixed by
+      /repo commit c41151f, kept here as documentation. *)
+Theorem C19_orig_search_terminates_refuted :
+  exists st c t, 1 <= fst c /\ st (fst c) = Some (snd c) /\ mono st 1 (fst c) /\
+    forall fuel, o_search st fuel 1 c t = None.
+Proof. exact orig_search_terminates_refuted. Qed.
+Print Assumptions C19_orig_search_terminates_refuted.
+
+Theorem C19_orig_search_correct_refuted :
+  exists st c t s tr, 1 <= fst c /\ st (fst c) = Some (snd c) /\ mono st 1 (fst c) /\
+    o_search st 100 1 c t = Some (s, tr) /\ fst s <> spec_search st 1 c t.
+Proof. exact orig_search_correct_refuted. Qed.
+Print Assumptions C19_orig_search_correct_refuted.
+
 (* ---- non-vacuity: a directory with gaps next to the bounds and the split meets the
         hypotheses, and the search answers as stated ---- *)
 Definition ex_st (n : Z) : option Z :=
@@ -98,4 +183,11 @@ Example ex_run_after : search (enough_fuel 1 (20, 200)) ex_st 1 (Some (20, 200))
 Proof. vm_compute. reflexivity. Qed.
 
 Example ex_bound : request_bound ex_st 1 (20, 200) = 28.
+Proof. vm_compute. reflexivity. Qed.
+
+Example ex_url : state_url 3 "https://planet.osm.org" 2008004
+  = Some "https://planet.osm.org/replication/changesets/002/008/004.state.txt"%string.
+Proof. vm_compute. reflexivity. Qed.
+
+Example ex_url_big : state_url 0 "" 1234567890 = Some "/replication/minute/1234/567/890.state.txt"%string.
 Proof. vm_compute. reflexivity. Qed.
